@@ -117,6 +117,11 @@ def r12_3(ctx):
     key, pcs = nfq.cells(ctx, AREA, "tendril::Atomic[Atomicity]::decrement")
     blob = " ".join(str(pc["ret"]) + " ".join(nfq.texts(pc)) for pc in pcs)
     ctx.ob("R12.3", "decrement-releases", "Release" in blob or "AcqRel" in blob or "SeqCst" in blob, "decrement uses Release (pairs with the acquire fence before destroy)")
+    key, pcs = nfq.cells(ctx, AREA, "tendril::Atomic[Atomicity]::fence_acquire")
+    blob = " ".join(" ".join(nfq.texts(pc)) for pc in pcs)
+    ok = re.search(r"(?<![a-z_])fence\((Acquire|AcqRel|SeqCst)\)", blob) is not None and "compiler_fence" not in blob
+    ctx.ob("R12.3", "acquire-fence-is-a-hardware-fence", ok, "Atomic::fence_acquire is atomic::fence(Acquire): the last decrement happens-before destroy" if ok else
+           "Atomic::fence_acquire is not atomic::fence(Acquire) (%s): freeing the buffer is no longer ordered after other threads' last use" % blob[:80], "tendril Atomic::fence_acquire")
     # unsafe impl Send / Sync facts
     mir = ctx.mir
     found = []
